@@ -216,6 +216,78 @@ def clause_of(rec, res):
     return "hosts / imported nodes carry the referenced node's current value, the unit rules and unchanged type", "ok->ok"
 
 
+# ----------------------------------------------------------------------------- base-environment family (DipBase.tla)
+
+def base_texts(tier, seed):
+    """Texts of the ParseOnTop family: base environments of every kind and child texts (inputs; DipBase decides)."""
+    k = 1 + seed % 4
+    U, S, N, I = (lambda n, v: {"k": "unit", "name": n, "val": v}), (lambda n: {"k": "source", "name": n}), \
+                 (lambda n, v, u="": {"k": "node", "name": n, "val": v, "unit": u}), (lambda n: {"k": "inj", "name": n})
+    CASE, END = (lambda v: {"k": "case", "val": v}), {"k": "end"}
+    base = [[], [U("len", 2)], [S("s1")], [N("a", k)], [U("len", 2), N("a", k, "len")], [U("len", 2), S("s1")],
+            [CASE(True), N("a", k), END, N("b", k + 1)]]
+    # (a name carries a unit in one text only: re-stating a different unit is C14's business, not modelled here)
+    child = [[U("wid", 3), N("w", 4, "wid"), I("y")], [N("z", 5, "len")], [S("s2"), N("x", 6)], [N("a", 7)], [I("y")],
+             [N("x", k), CASE(False), N("v", 3)], [CASE(True), N("v", 2)], [CASE(True), N("t", 2), END, N("m", 3, "m")],
+             [U("len", 9)], []]
+    return base, child
+
+
+def base_mc(base, child, maxops, mode, emit):
+    seq = lambda xs: "<<" + ",\n   ".join(C.tla_str(x) for x in xs) + ">>"
+    mod = f"""---- MODULE DipBaseMC ----
+EXTENDS DipBase
+MCBase == {seq(base)}
+MCChild == {seq(child)}
+====
+"""
+    cfg = f"""CONSTANTS
+  BaseTexts <- MCBase
+  ChildTexts <- MCChild
+  MaxOps = {maxops}
+  CopyMode = "{mode}"
+  Emit = {C.tla_str(emit)}
+SPECIFICATION Spec
+INVARIANT Isolated
+INVARIANT EmitInv
+CHECK_DEADLOCK FALSE
+"""
+    return mod, cfg
+
+
+def run_base_tlc(wd, base, child, maxops, mode="deep", emit=True):
+    mod, cfg = base_mc(base, child, maxops, mode, emit)
+    with open(os.path.join(wd, "DipBaseMC.tla"), "w") as f:
+        f.write(mod)
+    return C.run_tlc(wd, "DipBaseMC", cfg, want_records=emit)
+
+
+def replay_hist(hist):
+    """Execute one history of parses on real Environment objects; after every call compare EVERY live environment
+    (nodes, custom units, declared sources) with the ideal value.  -> None | detail of the first contradiction"""
+    scratch = os.path.join(_WD[0] or "/var/tmp/snt-c17-replay", f"w{os.getpid()}")
+    envs, keep, texts = [], [], []
+    for n, op in enumerate(hist):
+        text = A.render_base_text(op["text"], scratch)
+        texts.append({"op": op["op"], "base": op["base"], "text": text})
+        res, env = A.parse_on(envs[op["base"] - 1] if op["op"] == "on" else None, text, f"c17h{n}", keep)
+        envs.append(env)
+        if res != op["res"]:
+            return {"step": n + 1, "texts": texts, "clause": "the parse is accepted / rejected as the ideal says "
+                    "(a function of the base environment's value and the text alone)", "expected": op["res"], "observed": res}
+        for j, exp in enumerate(op["expect"]):
+            if not exp["live"]:
+                continue
+            obs = A.observe_env(envs[j])
+            want = A.expected_env(exp)
+            if not A.same_env(obs, want):
+                which = "the result of this parse" if j == n else f"environment #{j + 1} (created {n - j} call(s) earlier)"
+                return {"step": n + 1, "texts": texts, "env": j + 1, "expected": want, "observed": obs,
+                        "clause": f"after call {n + 1}: {which} holds exactly the nodes, units and sources the ideal says"
+                                  + ("" if j == n else " - parsing on top of an environment leaves it unchanged")}
+    return None
+
+
 # ----------------------------------------------------------------------------- the check
 
 def slim(rec):
@@ -295,6 +367,35 @@ def run(replay=None):
                                     "expected": A.expected_data(rec["ideal"]["data"])})
         nrec += len(recs)
         del recs, results
+    # ---- the ParseOnTop family: histories of parses over environment objects (DipBase.tla)
+    bt, ct = base_texts(tier, seed)
+    maxops = 3 if tier == "quick" else 4
+    rb = run_base_tlc(wd, bt, ct, maxops)
+    if rb.violated:
+        raise C.MachineryError(f"DipBase: {rb.violated} violated with CopyMode deep:\n{rb.cex[:1200]}")
+    hists = rb.records
+    hres = C.pmap(replay_hist, hists)
+    nh_bad = 0
+    for h, det in zip(hists, hres):
+        if det is None:
+            V.ok()
+        else:
+            nh_bad += 1
+            V.fail({"hist": [{k: op[k] for k in ("op", "base", "text", "res")} for op in h], "texts": det["texts"]},
+                   det.get("expected"), det.get("observed"), det["clause"], tags=["base-history"], failure="base-history")
+    sens = {}
+    for mode in ("alias_if_no_nodes", "share_branching", "alias"):     # each aliasing variant must break Isolated
+        rs = run_base_tlc(wd, bt, ct, 3, mode=mode, emit=False)
+        sens[mode] = rs.violated or "none"
+        if rs.violated != "Isolated":
+            V.notes.append(f"DipBase sensitivity: CopyMode {mode} did not violate Isolated ({rs.violated})")
+    states += rb.distinct
+    trans += rb.generated
+    nrec += len(hists)
+    per_cfg["base-histories"] = len(hists)
+    nontrivial += sum(1 for h in hists if len(h) >= 3 and len({op["base"] for op in h[1:]}) < len(h) - 1)
+    samples.append({"cfg": "base-histories", "calls": [{"op": op["op"], "base": op["base"],
+                    "text": A.render_base_text(op["text"], "<workdir>"), "res": op["res"]} for op in hists[len(hists) // 2]]})
     # sensitivity of BaseUnchanged: the parse that does not copy the base environment must be caught by TLC
     cf0 = dict(cfgs[2], bounds=dict(cfgs[2]["bounds"], **{"def": 2, "ref": 1, "late": 0}))
     r0 = run_tlc(wd, cf0, copy_on_parse=False, emit=False)
@@ -313,6 +414,7 @@ def run(replay=None):
         "machine_vs_ideal_deviations": dict(devs),
         "failures_by_kind": {f"{h}|{f}|{' '.join(t)}": n for (h, f, t), n in sorted(stats.items(), key=lambda kv: -kv[1])[:40]},
         "spec_sensitivity_without_copy": r0.violated or "none",
+        "base_history_sensitivity": sens,
     })
     if r0.violated != "BaseUnchanged":
         V.notes.append("sensitivity run without copy.deepcopy did not violate BaseUnchanged: " + str(r0.violated))
